@@ -254,6 +254,8 @@ type c18UniCase struct {
 	Packets int `json:"packets"`
 	Tail    int `json:"tail"`
 	Chunk   int `json:"chunk"`
+	// every data-returning Read is preceded by this many Reads answering (0, nil)
+	Hesitate int `json:"empty_reads_before_each_data_read,omitempty"`
 }
 
 func c18CheckUniform(c c18UniCase) engine.Result {
@@ -263,7 +265,7 @@ func c18CheckUniform(c c18UniCase) engine.Result {
 	var spw ref.ScriptedPacketWriter
 	variant := 0
 	run := func(eofData bool, failCall int, failData bool, wfail int) (calls int) {
-		sr = ref.ScriptedReader{Data: data, Chunk: c.Chunk, EOFWithData: eofData, FailCall: failCall, FailWithData: failData}
+		sr = ref.ScriptedReader{Data: data, Chunk: c.Chunk, EOFWithData: eofData, FailCall: failCall, FailWithData: failData, Hesitate: c.Hesitate}
 		// rotate through the kinds of failing reader / failing writer: sticky or transient error,
 		// the injected error or io.ErrUnexpectedEOF, failing write reporting 0 / 188 / 100 bytes
 		variant++
@@ -281,8 +283,8 @@ func c18CheckUniform(c c18UniCase) engine.Result {
 			return sr.Calls
 		}
 		c18JudgeReadFrom(&res, data, &sr, &spw, n, err, func() string {
-			return fmt.Sprintf("%s.ReadFrom, stream of %d packets + %d bytes, reader hands out %d bytes per call, EOF with data %v, Read call #%d fails (with data %v), packet write #%d fails",
-				c18Adapters[c.Adapter], c.Packets, c.Tail, c.Chunk, eofData, failCall, failData, wfail)
+			return fmt.Sprintf("%s.ReadFrom, stream of %d packets + %d bytes, reader hands out %d bytes per call (after %d empty reads each), EOF with data %v, Read call #%d fails (with data %v), packet write #%d fails",
+				c18Adapters[c.Adapter], c.Packets, c.Tail, c.Chunk, c.Hesitate, eofData, failCall, failData, wfail)
 		})
 		return sr.Calls
 	}
@@ -331,12 +333,14 @@ type c18LongCase struct {
 	Chunk   int  `json:"chunk"`
 	Bufio   int  `json:"bufio_size"` // 0: none
 	EOFData bool `json:"eof_with_data"`
+	// every data-returning Read is preceded by this many Reads answering (0, nil)
+	Hesitate int `json:"empty_reads_before_each_data_read,omitempty"`
 }
 
 func c18CheckLong(c c18LongCase) engine.Result {
 	var res engine.Result
 	data := c18LongStream[:c.Packets*188+c.Tail]
-	sr := ref.ScriptedReader{Data: data, Chunk: c.Chunk, EOFWithData: c.EOFData}
+	sr := ref.ScriptedReader{Data: data, Chunk: c.Chunk, EOFWithData: c.EOFData, Hesitate: c.Hesitate}
 	var spw ref.ScriptedPacketWriter
 	spw.Reset(-1)
 	w := c18Make(c.Adapter, &spw)
@@ -352,8 +356,8 @@ func c18CheckLong(c c18LongCase) engine.Result {
 			sr.ShortReads++ // the buffered reader cuts packets at its buffer boundary
 		}
 		c18JudgeReadFrom(&res, data, &sr, &spw, n, err, func() string {
-			return fmt.Sprintf("%s.ReadFrom, stream of %d packets + %d bytes, reader hands out %d bytes per call through bufio size %d, EOF with data %v",
-				c18Adapters[c.Adapter], c.Packets, c.Tail, c.Chunk, c.Bufio, c.EOFData)
+			return fmt.Sprintf("%s.ReadFrom, stream of %d packets + %d bytes, reader hands out %d bytes per call (after %d empty reads each) through bufio size %d, EOF with data %v",
+				c18Adapters[c.Adapter], c.Packets, c.Tail, c.Chunk, c.Hesitate, c.Bufio, c.EOFData)
 		})
 	}
 	res.Nontrivial = 1
@@ -370,7 +374,7 @@ func c18TreeBody(adapter, packets, tail int) func(ch *engine.Chooser) engine.Res
 		spw := &ref.ScriptedPacketWriter{}
 		spw.ChooseFail(ch, packets)
 		spw.FailN = engine.Pick(ch, "failing-write-reports-bytes", []int{0, 188, 100})
-		sr := &ref.ScriptedReader{Data: data, Ch: ch, Faults: true, Align: 188}
+		sr := &ref.ScriptedReader{Data: data, Ch: ch, Faults: true, Align: 188, Empties: true}
 		sr.FailOnce = ch.Bool("reader-error-is-transient")
 		if ch.Bool("reader-error-is-io.ErrUnexpectedEOF") {
 			sr.FailErr = io.ErrUnexpectedEOF
@@ -417,7 +421,7 @@ func init() {
 		},
 		&engine.Enum[c18UniCase]{
 			Name: "readfrom-uniform-chunks",
-			Rule: "ReadFrom over streams of 0..3 packets + tail {0,1,187} bytes (thorough 0..4 packets, tail {0,1,94,187}) x reader that hands out exactly c bytes per call for every c in 1..377 x EOF on a separate call / attached to the last data x injected reader error at no call and at every call (without and together with that call's data) x failing packet write at no index and every index; adapter rotates with the case in quick, all four in thorough. Oracle: deliveries == the stream's complete packets in order, byte-equal; n == 188 x successful deliveries; no fault => all complete packets delivered, ErrInvalidPacketLength iff a partial tail remains, else nil; reader error => that error, and every packet completed before the failing call delivered; writer error => that error (either one if both occurred) and no delivery after it; non-trivial = chunk < 188 and shorter than the stream (some packet is cut)",
+			Rule: "ReadFrom over streams of 0..3 packets + tail {0,1,187} bytes (thorough 0..4 packets, tail {0,1,94,187}) x reader that hands out exactly c bytes per call for every c in 1..377 (for c in {1..4,93..95,186..190,377} also with 1 or 2 Reads answering (0,nil) before every data Read) x EOF on a separate call / attached to the last data x injected reader error at no call and at every call (without and together with that call's data) x failing packet write at no index and every index; adapter rotates with the case in quick, all four in thorough. Oracle: deliveries == the stream's complete packets in order, byte-equal; n == 188 x successful deliveries; no fault => all complete packets delivered, ErrInvalidPacketLength iff a partial tail remains, else nil; reader error => that error, and every packet completed before the failing call delivered; writer error => that error (either one if both occurred) and no delivery after it; non-trivial = chunk < 188 and shorter than the stream (some packet is cut)",
 			Gen: func(r *engine.Run, emit func(c18UniCase)) {
 				pks, tails := c18Shapes(r.Thorough())
 				for _, p := range pks {
@@ -430,6 +434,12 @@ func init() {
 							} else {
 								emit(c18UniCase{Adapter: (p + t + c) % len(c18Adapters), Packets: p, Tail: t, Chunk: c})
 							}
+							// hesitant readers: 1 or 2 empty reads before every data read
+							for _, h := range []int{1, 2} {
+								if c <= 4 || c == 93 || c == 94 || c == 95 || (c >= 186 && c <= 190) || c == 377 {
+									emit(c18UniCase{Adapter: (p + t + c + h) % len(c18Adapters), Packets: p, Tail: t, Chunk: c, Hesitate: h})
+								}
+							}
 						}
 					}
 				}
@@ -438,7 +448,7 @@ func init() {
 		},
 		&engine.Enum[c18LongCase]{
 			Name: "readfrom-long-streams",
-			Rule: "streams of {21,22,23,44,100} packets (thorough: every count 1..110) and {255,256,257,348,349,350,1400} packets (around 2^8 packets / 2^16 bytes, and 263 KB) + tail {0,1,100} bytes, reader chunk sizes {1,100,187,188,189,376,4000,4096,100000} directly and through bufio readers of size {16,4096,4100}, EOF separate or attached: beyond the sizes of the exhaustive scenarios (default buffer sizes are not multiples of 188, so short reads appear only after ~22 packets)",
+			Rule: "streams of {21,22,23,44,100} packets (thorough: every count 1..110) and {255,256,257,348,349,350,1400} packets (around 2^8 packets / 2^16 bytes, and 263 KB) + tail {0,1,100} bytes, reader chunk sizes {1,100,187,188,189,376,4000,4096,100000} directly and through bufio readers of size {16,4096,4100}, unbuffered chunk sizes <= 189 also with 1 or 2 empty (0,nil) Reads before every data Read (up to 376 empty reads per packet), EOF separate or attached: beyond the sizes of the exhaustive scenarios (default buffer sizes are not multiples of 188, so short reads appear only after ~22 packets)",
 			Gen: func(r *engine.Run, emit func(c18LongCase)) {
 				counts := []int{21, 22, 23, 44, 100}
 				if r.Thorough() {
@@ -451,7 +461,13 @@ func init() {
 						for _, ch := range []int{1, 100, 187, 188, 189, 376, 4000, 4096, 100000} {
 							for _, b := range []int{0, 16, 4096, 4100} {
 								for _, e := range []bool{false, true} {
-									emit(c18LongCase{(p + t + ch) % 4, p, t, ch, b, e})
+									emit(c18LongCase{Adapter: (p + t + ch) % 4, Packets: p, Tail: t, Chunk: ch, Bufio: b, EOFData: e})
+									if b == 0 && ch <= 189 && p <= 100 {
+										// hesitant readers, unbuffered: with one-byte pieces this is 188 / 376 empty reads per packet
+										for _, h := range []int{1, 2} {
+											emit(c18LongCase{Adapter: (p + t + ch + h) % 4, Packets: p, Tail: t, Chunk: ch, EOFData: e, Hesitate: h})
+										}
+									}
 								}
 							}
 						}
@@ -470,7 +486,7 @@ func init() {
 			extra := p == 4 || t == 94
 			scen = append(scen, &c18Tree{Tree: engine.Tree{
 				Name: fmt.Sprintf("readfrom-tree-%dp+%d", p, t),
-				Rule: fmt.Sprintf("ReadFrom through %s over a stream of %d packets + %d bytes with the scripted environment: first choice = failing packet write (none, index 0..%d), then at every Read the amount (all that fits, 1, half, up to the next 188-boundary of the stream, +1, -1), a fault (none, error without data, error together with the data; the error sticky or transient, the injected error or io.ErrUnexpectedEOF; a failing packet write reporting 0, 188 or 100 bytes) and, with the last byte, EOF separate / attached; deviations from the all-default run <= 6 (thorough 8); same oracle as readfrom-uniform-chunks; non-trivial = execution with at least one deviation", c18Adapters[(p+t)%4], p, t, p-1),
+				Rule: fmt.Sprintf("ReadFrom through %s over a stream of %d packets + %d bytes with the scripted environment: first choice = failing packet write (none, index 0..%d), then at every Read optionally an empty answer (0,nil) first (at most two in a row), the amount (all that fits, 1, half, up to the next 188-boundary of the stream, +1, -1), a fault (none, error without data, error together with the data; the error sticky or transient, the injected error or io.ErrUnexpectedEOF; a failing packet write reporting 0, 188 or 100 bytes) and, with the last byte, EOF separate / attached; deviations from the all-default run <= 6 (thorough 8); same oracle as readfrom-uniform-chunks; non-trivial = execution with at least one deviation", c18Adapters[(p+t)%4], p, t, p-1),
 				Bound: func(r *engine.Run) int {
 					if r.Thorough() {
 						return 8
